@@ -1,4 +1,5 @@
 import Orca.Lemmas.SemSim
+import Orca.Lemmas.SemBranch
 /-!
 # C19 — block exit probes fire when the block or arm falls through
 
@@ -38,6 +39,17 @@ theorem c19_block_exit (fns : List Callee) (fx : List Nat) (f : Nat) (p : List I
     ∃ g, run fns false [] g (lowerL fx p) s = o := by
   obtain ⟨⟨g, e, _⟩, _⟩ := lower_sim (fns := fns) hns h ok
   exact ⟨g, e⟩
+
+/-- the same with semantic-after probes on branches in the function (scope of C20's branch theorem: annotated `br` /
+    `br_if`, targets not in loops, not the function label; distinct flag locals, untouched by the program, 0 on entry):
+    the lowered function reproduces results, traps, globals, memory and the whole trace — block exit probes at their defining
+    moments included — and differs at most in the flag locals -/
+theorem c19_exit_with_branch_probes (fns : List Callee) (Fl : List Nat) (F : Func)
+    (hsc : scopedL Fl F.body = true) (hnd : (flagsL F.body).Nodup) (hF : ∀ x ∈ flagsL F.body, x ∈ Fl)
+    (hnoesc : ∀ d, pendingL d F.body = []) (s s' : St) (hs : s.stack = []) (hfe : FlagEq Fl s s')
+    (hz : ∀ x ∈ flagsL F.body, flagIs s' x 0) (f : Nat) (ok : (runFunc fns true f F s).ok = true) :
+    ∃ g, FOutRel Fl (runFunc fns true f F s) (runFunc fns false g (lowerF F) s') :=
+  branch_lowerF_sim (fns := fns) Fl F hsc hnd hF hnoesc s s' hs hfe hz f ok
 
 /-! non-vacuity, decided in the kernel: an `if` whose then-arm contains a nested block (the shape of the repaired defect
     F13): the exit probe 1002 fires once, after the nested block *and* the rest of the arm; when the arm is left by a
